@@ -114,6 +114,16 @@ def exc_class(name):
     return getattr(X, name)
 
 
+def _user_mutates(v):
+    if isinstance(v, list):
+        v.append("user-mutation")
+    elif isinstance(v, dict):
+        v["user-mutation"] = True
+        for x in list(v.values()):
+            if isinstance(x, (list, dict)):
+                _user_mutates(x)
+
+
 def make_exc(name, msg):
     from aws_durable_execution_sdk_python import exceptions as X
     cls = exc_class(name)
@@ -251,7 +261,7 @@ class Interp:
         if "raise" in beh:
             raise make_exc(beh["raise"], beh.get("msg", "boom"))
         if "bytes" in beh:
-            return "x" * beh["bytes"]
+            return beh.get("char", "x") * beh["bytes"]
         if "item" in beh:
             return ["item", item]
         if "obj" in beh:
@@ -294,6 +304,8 @@ class Interp:
                 dcs = RetryDecision.no_retry()
             else:
                 dcs = RetryDecision.retry(Duration(seconds=table[idx]))
+                if spec.get("ctor"):   # built with the dataclass constructor rather than the factory
+                    dcs = RetryDecision(should_retry=True, delay=Duration(seconds=table[idx]))
             self.w.strat_calls.append({"path": path, "inv": self.d.inv, "tick": self.d.tick(),
                                        "err": type(error).__name__, "attempts_made": attempts_made,
                                        "retry": dcs.should_retry, "delay": dcs.delay_seconds})
@@ -348,7 +360,8 @@ class Interp:
         k = op["k"]
         w = self.w
         if k == "log":
-            w.log_calls.append({"inv": self.d.inv, "label": op["label"], "where": "gap", "tick": self.d.tick()})
+            w.log_calls.append({"inv": self.d.inv, "label": op["label"], "where": "gap", "tick": self.d.tick(),
+                                "after_ops": counter[0] if base == () else None})
             ctx.logger.info(op["label"])
             return []
         if k == "sleep":
@@ -393,7 +406,10 @@ class Interp:
                     raise
                 w.exit(path, returned=render(r))
                 return r
-            return [self._deliver(path, lambda: ctx.step(fn, name=name, config=cfg), "step")]
+            v = self._deliver(path, lambda: ctx.step(fn, name=name, config=cfg), "step")
+            if op.get("mutate"):
+                _user_mutates(v)   # user code owns what it was given (recorded above, before the mutation)
+            return [v]
         if k == "wait":
             return [self._deliver(path, lambda: ctx.wait(Duration(seconds=op["s"]), name=name), "wait")]
         if k == "cb":
@@ -441,6 +457,8 @@ class Interp:
                     dcs = WaitForConditionDecision.stop_polling()
                 else:
                     dcs = WaitForConditionDecision.continue_waiting(Duration(seconds=decide[idx]["cont"]))
+                    if decide[idx].get("ctor"):   # the decision built with the dataclass constructor, not the factory
+                        dcs = WaitForConditionDecision(should_continue=True, delay=Duration(seconds=decide[idx]["cont"]))
                 w.wfc_calls.append({"path": path, "inv": self.d.inv, "tick": self.d.tick(),
                                     "state": render(state), "attempt": attempt,
                                     "cont": dcs.should_continue, "delay": dcs.delay_seconds})
@@ -479,7 +497,7 @@ class Interp:
                 if "ret" in op:
                     vals = dec(op["ret"])
                 elif op.get("big"):
-                    vals = vals + ["x" * op["big"]]
+                    vals = vals + [op.get("big_char", "x") * op["big"]]
                 w.exit(path, returned=render(vals))
                 return vals
             summ = (lambda r: json.dumps({"summary": True})) if op.get("summary") else None
